@@ -134,6 +134,8 @@ class RegistryDriver:
             if b is None:
                 return [{"prop": "DRIFT", "key": "arg-missing", "detail": "no object for %r" % (ev["b"],)}]
         before = dict(m.Unit._known)
+        # what the live object reported before this step (a load must give back the identical unit WITH its identical parts)
+        self._snap = (a.dimension, a.prefix) if (op == "load" and a is not None) else None
         out, res = "ok", []
         blob = orig = None
         if op == "load":
@@ -165,6 +167,10 @@ class RegistryDriver:
                     self.pretty(a)
                 elif b == "mathml":
                     a._repr_html_()
+                res = []
+            elif op == "defdim":
+                n = len(m.Dimension._fundamental)
+                m.Dimension.define("verifdim%s" % "abcdefghij"[n % 10], "VD%s" % "abcdefghij"[n % 10])
                 res = []
             elif op == "touch":
                 try:
@@ -251,7 +257,7 @@ class RegistryDriver:
             if now.get(k) is not u:
                 mm.append(self._mm("C02", "%s:entry-replaced" % tag, "table entry for %s was replaced or removed" % A.key_str(u)))
         for oid, (u, ex) in list(ctx["dims"].items()):
-            if tuple(u.dimension.exponents) != ex and oid not in ctx["chg"]:
+            if A.dim_key(u.dimension) != ex and oid not in ctx["chg"]:
                 ctx["chg"].add(oid)
                 mm.append(self._mm("C01", "%s:dimension-changed" % tag, "%s changed its dimension" % A.key_str(u)))
         if op == "load" and kind == 0 and len(now) != len(before):
@@ -282,7 +288,7 @@ class RegistryDriver:
         elif prev is not r:
             mm.append(self._mm(prop, "%s:identity" % tag, "a second object for normal form %s" % (nf,)))
         if id(r) not in ctx["dims"]:
-            ctx["dims"][id(r)] = (r, tuple(r.dimension.exponents))
+            ctx["dims"][id(r)] = (r, self.alpha.dim_key(r.dimension))
 
     def _mm(self, prop, key, detail):
         return {"prop": prop, "key": key, "detail": detail}
@@ -317,6 +323,12 @@ class RegistryDriver:
         """returns the list of Unit results to be judged like any other result"""
         m = self.m
         if kind == 0:
+            if isinstance(got, m.Unit) and self._snap is not None:
+                if got.dimension is not self._snap[0]:
+                    mm.append(self._mm("C15", "%s-%s:unit-dimension-object-not-identical" % (op, codec),
+                                       "after loading, %r reports dimension object %r instead of the one it had (%r)" % (got, tuple(got.dimension.exponents), tuple(self._snap[0].exponents))))
+                if got.prefix is not self._snap[1]:
+                    mm.append(self._mm("C15", "%s-%s:unit-prefix-object-not-identical" % (op, codec), "after loading, %r carries another prefix object" % (got,)))
             if isinstance(got, m.Unit):
                 # a unit's prefix and dimension must round-trip to the identical objects too
                 for part, name in ((got.prefix, "prefix"), (got.dimension, "dimension")):
@@ -418,12 +430,14 @@ def run_registry(prop, tier, seed):
         configs.append(("roots", dict(depth=2 if q else 3, ops="roots", universe=1, seeds=1)))
         configs.append(("ratio", dict(depth=3 if q else 4, ops="ratio", universe=1, seeds=1)))
         configs.append(("touch", dict(depth=2, ops="touch", universe=1, seeds=0 if q else 1)))
+        configs.append(("defdim", dict(depth=3 if q else 4, ops="defdim", universe=1, kinds=1 if q else 2)))
         configs.append(("foreign", dict(depth=2, ops="foreign", universe=1, seeds=1, foreign=1 if q else 2, kinds=2)))
         if not q:
             configs.append(("alg_u2", dict(depth=2, ops="", universe=2)))
     if prop == "C15":
         configs.append(("codec", dict(depth=2, ops="codec", universe=1, seeds=1)))
         configs.append(("foreignq", dict(depth=2, ops="foreignq", universe=1, seeds=1, foreign=1)))
+        configs.append(("defdim", dict(depth=3 if q else 4, ops="defdim", universe=1, kinds=1 if q else 2)))
         if not q:
             configs.append(("foreign", dict(depth=2, ops="foreign", universe=1, seeds=1, foreign=1)))
     samples = []
